@@ -135,6 +135,28 @@ theorem lex_comment_nl {rest : List Rune} {ln : Nat} {acc : List Token} :
   rw [lexLoop]
   simp [NextSt.heredocStart, rBS, rCR, rNL, isSpace]
 
+/-! ### simple double-quoted strings in the lexer -/
+
+theorem lex_dq_content : ∀ (as rest v : List Rune) (l : LexSt) (tl : Nat) (acc : List Token), as.all dqCh = true →
+    lexLoop (as ++ rest) l { val := v, tokLine := tl, quoted := true } acc =
+      lexLoop rest l { val := v ++ as, tokLine := tl, quoted := true } acc
+  | [], _, _, _, _, _, _ => by simp
+  | c :: as, rest, v, l, tl, acc, h => by
+    simp only [List.all_cons, Bool.and_eq_true] at h
+    obtain ⟨h34, h92, h10⟩ := dqCh_spec h.1
+    rw [List.cons_append, lexLoop]
+    have ih := lex_dq_content as rest (v ++ [c]) l tl acc h.2
+    simp [NextSt.heredocStart, rBS, rDQ, rNL, h34, h92, h10]
+    rw [ih]; simp
+
+theorem lex_dq {as rest : List Rune} {l : LexSt} {acc : List Token} (h : as.all dqCh = true) :
+    lexLoop (rDQ :: (as ++ rDQ :: rest)) l {} acc = lexLoop rest l {} (acc ++ [⟨l.line, as, rDQ, []⟩]) := by
+  have h1 : lexLoop (rDQ :: (as ++ rDQ :: rest)) l {} acc
+      = lexLoop (as ++ rDQ :: rest) l { val := [], tokLine := l.line, quoted := true } acc := by
+    rw [lexLoop]; simp [NextSt.heredocStart, rBS, rDQ, rHash, isSpace]
+  rw [h1, lex_dq_content as _ [] l l.line acc h, lexLoop]
+  simp [NextSt.heredocStart, rBS, rDQ, NextSt.mk']
+
 /-! ### the lexer over chunk lists -/
 
 /-- the word is a comment -/
@@ -149,14 +171,27 @@ def lexGood : (first afterCmt : Bool) → List Chunk → Bool
     c.sep.all wsCh && (first || !c.sep.isEmpty) && (!afterCmt || c.sep.head? == some rNL) &&
     (match c.word with
      | [] => false
-     | h :: t => (h == rHash && t.all cmtCh) || (h :: t).all lexCh) &&
+     | h :: t => (h == rHash && t.all cmtCh) || (h == rDQ && dqTail t) || (h :: t).all lexCh) &&
     lexGood false (isCmtW c.word) cs
+
+/-- the word is a double-quoted string -/
+def isDqW (w : List Rune) : Bool := w.head? == some rDQ
+
+/-- text and quote kind of the token a word gives -/
+def tokText (w : List Rune) : List Rune := if isDqW w then (w.drop 1).dropLast else w
+def tokQuote (w : List Rune) : Rune := if isDqW w then rDQ else 0
 
 /-- the tokens of a chunk list whose first separator starts on line `ln` (comments give none) -/
 def toksOf : Nat → List Chunk → List Token
   | _, [] => []
   | ln, c :: cs =>
-    if isCmtW c.word then toksOf (ln + c.nl) cs else ⟨ln + c.nl, c.word, 0, []⟩ :: toksOf (ln + c.nl) cs
+    if isCmtW c.word then toksOf (ln + c.nl) cs
+    else ⟨ln + c.nl, tokText c.word, tokQuote c.word, []⟩ :: toksOf (ln + c.nl) cs
+
+theorem tokText_dq (as : List Rune) : tokText (rDQ :: (as ++ [rDQ])) = as := by
+  simp [tokText, isDqW]
+
+theorem tokQuote_dq (t : List Rune) : tokQuote (rDQ :: t) = rDQ := by simp [tokQuote, isDqW]
 
 /-- trailing white space, with or without a token in progress -/
 theorem lex_trail_fresh (trail : List Rune) (ln : Nat) (acc : List Token) (h : trail.all wsCh = true) :
@@ -258,7 +293,9 @@ theorem lex_chunks (trail : List Rune) (ht : trail.all wsCh = true) : ∀ (n : N
           · -- a comment: no token
             subst hcm
             have hw' : w.all cmtCh = true := by
-              simp only [Bool.or_eq_true, Bool.and_eq_true, beq_self_eq_true, true_and, List.all_cons] at hw
+              have hd : (rHash == rDQ) = false := by decide
+              simp only [Bool.or_eq_true, Bool.and_eq_true, beq_self_eq_true, true_and, List.all_cons, hd,
+                Bool.false_and, Bool.false_eq_true, or_false] at hw
               rcases hw with hw | hw
               · exact hw
               · have : lexCh rHash = false := by decide
@@ -268,12 +305,27 @@ theorem lex_chunks (trail : List Rune) (ht : trail.all wsCh = true) : ∀ (n : N
             rw [List.cons_append, lex_hash, lex_comment_text w _ _ _ hw', ihC cs _ acc hlen hrest]
             simp [toksOf, Chunk.nl, hcw, hic]
           · have hne : (a == rHash) = false := by simp [hcm]
-            simp only [hne, Bool.false_and, Bool.false_or, List.all_cons, Bool.and_eq_true] at hw
             have hic : isCmtW (a :: w) = false := by simp [isCmtW, hcm]
             rw [hic] at hrest
-            rw [lex_word_fresh hw.1 hw.2,
-              ihB cs (a :: w) (ln + countNL c.sep) (ln + countNL c.sep) acc hlen hrest (by simp [hw.1, hw.2]) (by simp)]
-            simp [toksOf, Chunk.nl, hcw, hic]
+            by_cases hcq : a = rDQ
+            · -- a simple string: one quoted token, then a fresh state
+              subst hcq
+              have hd : dqTail w = true := by
+                have hl : lexCh rDQ = false := by decide
+                simp only [hne, Bool.false_and, Bool.false_or, beq_self_eq_true, Bool.true_and, List.all_cons, hl,
+                  Bool.or_false] at hw
+                exact hw
+              obtain ⟨as, hwas, hall⟩ := dqTail_spec w hd
+              subst hwas
+              have e2 : rDQ :: (as ++ [rDQ]) ++ (flatten cs ++ trail) = rDQ :: (as ++ rDQ :: (flatten cs ++ trail)) := by
+                simp [List.append_assoc]
+              rw [e2, lex_dq hall, ihA cs false _ _ hlen hrest]
+              simp [toksOf, Chunk.nl, hcw, hic, tokText_dq, tokQuote_dq]
+            · have hnq : (a == rDQ) = false := by simp [hcq]
+              simp only [hne, hnq, Bool.false_and, Bool.false_or, List.all_cons, Bool.and_eq_true] at hw
+              rw [lex_word_fresh hw.1 hw.2,
+                ihB cs (a :: w) (ln + countNL c.sep) (ln + countNL c.sep) acc hlen hrest (by simp [hw.1, hw.2]) (by simp)]
+              simp [toksOf, Chunk.nl, hcw, hic, tokText, tokQuote, isDqW, hcq]
     refine ⟨hA, ?_, ?_⟩
     · -- (B) for length n+1: the first separator is non-empty; its first character ends the token
       intro cs v ln tl acc hl hg hv hne
@@ -318,12 +370,14 @@ theorem kind_cmt_iff (c : Chunk) : (c.kind = .cmt) ↔ isCmtW c.word = true := b
   · rename_i h; rw [h]; simp [rOpen, rHash]
   · split
     · rename_i h; rw [h]; simp [rClose, rHash]
-    · split <;> simp_all
+    · split
+      · simp_all
+      · split <;> simp_all
 
 theorem wordOK_lex {c : Chunk} (hw : c.wordOK = true) :
     (match c.word with
      | [] => false
-     | h :: t => (h == rHash && t.all cmtCh) || (h :: t).all lexCh) = true := by
+     | h :: t => (h == rHash && t.all cmtCh) || (h == rDQ && dqTail t) || (h :: t).all lexCh) = true := by
   unfold Chunk.wordOK at hw
   simp only [Bool.or_eq_true, beq_iff_eq] at hw
   rcases hw with (hw | hw) | hw
@@ -335,8 +389,9 @@ theorem wordOK_lex {c : Chunk} (hw : c.wordOK = true) :
       rw [hcw] at hw
       simp only [Bool.or_eq_true, Bool.and_eq_true, beq_iff_eq, Bool.not_eq_true'] at hw
       simp only [Bool.or_eq_true, Bool.and_eq_true, beq_iff_eq]
-      rcases hw with hw | hw
-      · exact Or.inl hw.1
+      rcases hw with (hw | hw) | hw
+      · exact Or.inl (Or.inl hw.1)
+      · exact Or.inl (Or.inr hw)
       · right
         have hall : ∀ x ∈ h :: t, plainCh x = true := by
           intro x hx
@@ -375,6 +430,9 @@ theorem good_lexGood : ∀ (cs : List Chunk) (prev : Option Kind), goodFrom prev
         | plain =>
           simp only [Bool.and_eq_true, Bool.not_eq_true', List.isEmpty_eq_false_iff] at hcond
           exact hcond.1
+        | dq =>
+          simp only [Bool.and_eq_true, Bool.not_eq_true', List.isEmpty_eq_false_iff] at hcond
+          exact hcond.1
         | opn =>
           simp only [Bool.and_eq_true, decide_eq_true_eq] at hcond
           exact countNL_pos_ne_nil hcond.1
@@ -392,6 +450,7 @@ theorem good_lexGood : ∀ (cs : List Chunk) (prev : Option Kind), goodFrom prev
           simp only [Bool.and_eq_true] at hcond
           simp [hcond.1]
         | plain => rfl
+        | dq => rfl
         | opn => rfl
         | cls => rfl
 
@@ -466,6 +525,22 @@ theorem canonSep_props {prev : Option Kind} {N : Nat} {c : Chunk} {cs : List Chu
         simp only [Bool.and_eq_true, Bool.not_eq_true', List.isEmpty_eq_false_iff] at hcond
         cases hk : c.kind with
         | plain => simpa [canonSep, hk] using hplainlike (by omega)
+        | dq => simpa [canonSep, hk] using hplainlike (by omega)
+        | cmt => simpa [canonSep, hk] using hplainlike (by omega)
+        | opn =>
+          rw [hk] at hcond
+          simp only [beq_iff_eq] at hcond
+          simp [canonSep, hk, hcond.2, countNL, rSP, rNL]
+        | cls =>
+          rw [hk] at hcond
+          simp only [decide_eq_true_eq] at hcond
+          simp only [canonSep, hk, countNL, countNL_tabsN]
+          exact ⟨by simp, by simp; omega⟩
+      | dq =>
+        simp only [Bool.and_eq_true, Bool.not_eq_true', List.isEmpty_eq_false_iff] at hcond
+        cases hk : c.kind with
+        | plain => simpa [canonSep, hk] using hplainlike (by omega)
+        | dq => simpa [canonSep, hk] using hplainlike (by omega)
         | cmt => simpa [canonSep, hk] using hplainlike (by omega)
         | opn =>
           rw [hk] at hcond
@@ -484,6 +559,7 @@ theorem canonSep_props {prev : Option Kind} {N : Nat} {c : Chunk} {cs : List Chu
         simp only [Bool.and_eq_true, decide_eq_true_eq, bne_iff_ne, ne_eq] at hcond
         cases hk : c.kind with
         | plain => simpa [canonSep, hk] using hplainlike (by omega)
+        | dq => simpa [canonSep, hk] using hplainlike (by omega)
         | cmt => simpa [canonSep, hk] using hplainlike (by omega)
         | opn => exact absurd hk hcond.2
         | cls =>
@@ -536,6 +612,22 @@ theorem good_canon : ∀ (cs : List Chunk) (prev : Option Kind) (N : Nat), goodF
         refine ⟨hne, ?_⟩
         cases hk : c.kind with
         | plain => rfl
+        | dq => rfl
+        | cmt => rfl
+        | opn =>
+          rw [hk] at hcond; simp only [beq_iff_eq] at hcond
+          have := hcond.2
+          simp only [beq_iff_eq]; omega
+        | cls =>
+          rw [hk] at hcond; simp only [decide_eq_true_eq] at hcond
+          have := hcond.2
+          simp only [decide_eq_true_eq]; omega
+      | dq =>
+        simp only [Bool.and_eq_true, Bool.not_eq_true', List.isEmpty_eq_false_iff] at hcond ⊢
+        refine ⟨hne, ?_⟩
+        cases hk : c.kind with
+        | plain => rfl
+        | dq => rfl
         | cmt => rfl
         | opn =>
           rw [hk] at hcond; simp only [beq_iff_eq] at hcond
@@ -584,12 +676,21 @@ theorem canonSep_idem (prev : Option Kind) (N : Nat) (c : Chunk) :
       | opn => simp only [canonSep, kind_with_sep, hk]
       | cls => simp only [canonSep, kind_with_sep, hk]
       | plain => simpa [canonSep, kind_with_sep, nl_mk, hk] using hplainlike
+      | dq => simpa [canonSep, kind_with_sep, nl_mk, hk] using hplainlike
+      | cmt => simpa [canonSep, kind_with_sep, nl_mk, hk] using hplainlike
+    | dq =>
+      cases hk : c.kind with
+      | opn => simp only [canonSep, kind_with_sep, hk]
+      | cls => simp only [canonSep, kind_with_sep, hk]
+      | plain => simpa [canonSep, kind_with_sep, nl_mk, hk] using hplainlike
+      | dq => simpa [canonSep, kind_with_sep, nl_mk, hk] using hplainlike
       | cmt => simpa [canonSep, kind_with_sep, nl_mk, hk] using hplainlike
     | cls =>
       cases hk : c.kind with
       | opn => simp only [canonSep, kind_with_sep, hk]
       | cls => simp only [canonSep, kind_with_sep, hk]
       | plain => simpa [canonSep, kind_with_sep, nl_mk, hk] using hplainlike
+      | dq => simpa [canonSep, kind_with_sep, nl_mk, hk] using hplainlike
       | cmt => simpa [canonSep, kind_with_sep, nl_mk, hk] using hplainlike
 
 theorem canon_idem : ∀ (cs : List Chunk) (prev : Option Kind) (N : Nat),
@@ -606,7 +707,7 @@ def gOf : (first acc : Bool) → List Chunk → List (List Rune × Rune × Bool)
   | _, _, [] => []
   | first, acc, c :: cs =>
     if isCmtW c.word then gOf first (acc || decide (0 < c.nl)) cs
-    else (c.word, 0, first || acc || decide (0 < c.nl)) :: gOf false false cs
+    else (tokText c.word, tokQuote c.word, first || acc || decide (0 < c.nl)) :: gOf false false cs
 
 theorem countNL_lexCh : ∀ (w : List Rune), w.all lexCh = true → countNL w = 0
   | [], _ => rfl
@@ -615,8 +716,17 @@ theorem countNL_lexCh : ∀ (w : List Rune), w.all lexCh = true → countNL w = 
     have := (lexCh_spec h.1).2.2.2.2.2.2.2
     simp [countNL, rNL, this, countNL_lexCh w h.2]
 
+theorem countNL_dqCh : ∀ (w : List Rune), w.all dqCh = true → countNL w = 0
+  | [], _ => rfl
+  | c :: w, h => by
+    simp only [List.all_cons, Bool.and_eq_true] at h
+    have := (dqCh_spec h.1).2.2
+    simp [countNL, rNL, this, countNL_dqCh w h.2]
+
+/-- a word that is not a comment gives a token without line breaks -/
 theorem lexGood_word {first ac : Bool} {c : Chunk} {cs : List Chunk} (hg : lexGood first ac (c :: cs) = true)
-    (hc : isCmtW c.word = false) : c.word.all lexCh = true ∧ lexGood false false cs = true := by
+    (hc : isCmtW c.word = false) :
+    (∀ ln, (⟨ln, tokText c.word, tokQuote c.word, []⟩ : Token).numLineBreaks = 0) ∧ lexGood false false cs = true := by
   simp only [lexGood, Bool.and_eq_true, hc] at hg
   refine ⟨?_, hg.2⟩
   have hw := hg.1.2
@@ -624,12 +734,24 @@ theorem lexGood_word {first ac : Bool} {c : Chunk} {cs : List Chunk} (hg : lexGo
   | nil => rw [hcw] at hw; simp at hw
   | cons h t =>
     rw [hcw] at hw hc
-    have : (h == rHash) = false := by
+    have hnh : (h == rHash) = false := by
       simp only [isCmtW, List.head?_cons] at hc
       cases hh : (h == rHash) with
       | false => rfl
       | true => simp only [beq_iff_eq] at hh; subst hh; simp at hc
-    simpa [this] using hw
+    intro ln
+    by_cases hq : h = rDQ
+    · subst hq
+      have hl : lexCh rDQ = false := by decide
+      simp only [hnh, Bool.false_and, Bool.false_or, beq_self_eq_true, Bool.true_and, List.all_cons, hl,
+        Bool.or_false] at hw
+      obtain ⟨as, hwas, hall⟩ := dqTail_spec t hw
+      subst hwas
+      rw [tokText_dq, tokQuote_dq]
+      simp [Token.numLineBreaks, countNL_dqCh _ hall, rLT, rDQ]
+    · have hnq : (h == rDQ) = false := by simp [hq]
+      simp only [hnh, hnq, Bool.false_and, Bool.false_or] at hw
+      simp [Token.numLineBreaks, tokText, tokQuote, isDqW, hq, countNL_lexCh _ hw, rLT]
 
 theorem groupingFrom_toksOf : ∀ (cs : List Chunk) (ln : Nat) (p : Token) (acc ac : Bool), p.numLineBreaks = 0 →
     p.line ≤ ln → acc = decide (p.line < ln) → lexGood false ac cs = true →
@@ -644,8 +766,8 @@ theorem groupingFrom_toksOf : ∀ (cs : List Chunk) (ln : Nat) (p : Token) (acc 
         (by subst hacc; by_cases h1 : p.line < ln <;> by_cases h2 : 0 < c.nl <;> simp [h1, h2] <;> omega) hrest
     · have hc' : isCmtW c.word = false := by simpa using hc
       obtain ⟨hw, hrest⟩ := lexGood_word hg hc'
-      have ih := groupingFrom_toksOf cs (ln + c.nl) ⟨ln + c.nl, c.word, 0, []⟩ false false
-        (by simp [Token.numLineBreaks, countNL_lexCh _ hw, rLT]) (Nat.le_refl _) (by simp) hrest
+      have ih := groupingFrom_toksOf cs (ln + c.nl) ⟨ln + c.nl, tokText c.word, tokQuote c.word, []⟩ false false
+        (hw _) (Nat.le_refl _) (by simp) hrest
       simp only [toksOf, gOf, hc', Bool.false_eq_true, ↓reduceIte, groupingFrom, ih, isNextOnNewLine, hb,
         Bool.false_or, Nat.add_zero]
       congr 3
@@ -663,8 +785,8 @@ theorem grouping_toksOf : ∀ (cs : List Chunk) (ln : Nat) (acc first ac : Bool)
       exact grouping_toksOf cs (ln + c.nl) _ false true hrest
     · have hc' : isCmtW c.word = false := by simpa using hc
       obtain ⟨hw, hrest⟩ := lexGood_word hg hc'
-      have := groupingFrom_toksOf cs (ln + c.nl) ⟨ln + c.nl, c.word, 0, []⟩ false false
-        (by simp [Token.numLineBreaks, countNL_lexCh _ hw, rLT]) (Nat.le_refl _) (by simp) hrest
+      have := groupingFrom_toksOf cs (ln + c.nl) ⟨ln + c.nl, tokText c.word, tokQuote c.word, []⟩ false false
+        (hw _) (Nat.le_refl _) (by simp) hrest
       simp only [grouping, toksOf, gOf, hc', Bool.false_eq_true, ↓reduceIte, groupingFrom, this, Bool.true_or]
 
 /-- with `first = true` neither the accumulator nor the first separator matters -/
@@ -727,7 +849,7 @@ theorem tokenize_on_chunks {lead trail : List Rune} {c : Chunk} {cs : List Chunk
   -- the input is non-empty and does not start with a byte-order mark
   have hwd : (match c.word with
      | [] => false
-     | h :: t => (h == rHash && t.all cmtCh) || (h :: t).all lexCh) = true := by
+     | h :: t => (h == rHash && t.all cmtCh) || (h == rDQ && dqTail t) || (h :: t).all lexCh) = true := by
     simp only [lexGood, Bool.and_eq_true] at hlg; exact hlg.1.2
   obtain ⟨a, w, hw, habom⟩ : ∃ a w, c.word = a :: w ∧ a ≠ rBOM := by
     cases hcw : c.word with
@@ -736,7 +858,8 @@ theorem tokenize_on_chunks {lead trail : List Rune} {c : Chunk} {cs : List Chunk
       refine ⟨a, w, rfl, ?_⟩
       rw [hcw] at hwd
       simp only [Bool.or_eq_true, Bool.and_eq_true, beq_iff_eq, List.all_cons] at hwd
-      rcases hwd with hwd | hwd
+      rcases hwd with (hwd | hwd) | hwd
+      · rw [hwd.1]; decide
       · rw [hwd.1]; decide
       · exact (lexCh_spec hwd.1).2.2.2.2.2.2.1
   have hfirst : ∃ b r, flatten (⟨lead, c.word⟩ :: cs) ++ trail = b :: r ∧ b ≠ rBOM := by
